@@ -703,6 +703,9 @@ class Instruction:
         self._var_map = {}
         self.block = None
         self.uses = OrderedSet()
+        # How many operands refer to each used value (a value can be
+        # used more than once by the same instruction, e.g. x + x):
+        self._use_counts = {}
 
     @property
     def function(self):
@@ -713,17 +716,26 @@ class Instruction:
         """Add v to the list of values used by this instruction"""
         if not isinstance(value, Value):
             raise TypeError(f"Expected Value, but got {value}")
-        self.uses.add(value)
-        value.add_user(self)
+        count = self._use_counts.get(value, 0)
+        self._use_counts[value] = count + 1
+        if count == 0:
+            self.uses.add(value)
+            value.add_user(self)
 
     def del_use(self, v):
         assert isinstance(v, Value)
-        self.uses.remove(v)
-        v.del_user(self)
+        count = self._use_counts[v] - 1
+        if count:
+            self._use_counts[v] = count
+        else:
+            del self._use_counts[v]
+            self.uses.remove(v)
+            v.del_user(self)
 
     def delete(self):
         for use in list(self.uses):
-            self.del_use(use)
+            while use in self.uses:
+                self.del_use(use)
         if self.uses:
             uses = ", ".join(map(str, self.uses))
             raise ValueError(
@@ -744,7 +756,8 @@ class Instruction:
 
     def remove_from_block(self):
         for use in list(self.uses):
-            self.del_use(use)
+            while use in self.uses:
+                self.del_use(use)
         self.block.remove_instruction(self)
 
     @property
@@ -882,11 +895,11 @@ class FunctionCall(LocalValue):
 
     def replace_use(self, old, new):
         super().replace_use(old, new)
-        if old in self.arguments:
-            idx = self.arguments.index(old)
-            self.del_use(old)
-            self.arguments[idx] = new
-            self.add_use(new)
+        for idx, argument in enumerate(self.arguments):
+            if argument is old:
+                self.del_use(old)
+                self.arguments[idx] = new
+                self.add_use(new)
 
     def __str__(self):
         args = ", ".join(arg.name for arg in self.arguments)
@@ -913,11 +926,11 @@ class ProcedureCall(Instruction):
 
     def replace_use(self, old, new):
         super().replace_use(old, new)
-        if old in self.arguments:
-            idx = self.arguments.index(old)
-            self.del_use(old)
-            self.arguments[idx] = new
-            self.add_use(new)
+        for idx, argument in enumerate(self.arguments):
+            if argument is old:
+                self.del_use(old)
+                self.arguments[idx] = new
+                self.add_use(new)
 
     def __str__(self):
         args = ", ".join(arg.name for arg in self.arguments)
@@ -1205,11 +1218,11 @@ class InlineAsm(Instruction):
 
     def replace_use(self, old, new):
         super().replace_use(old, new)
-        if old in self.input_values:
-            idx = self.input_values.index(old)
-            self.del_use(old)
-            self.input_values[idx] = new
-            self.add_use(new)
+        for idx, input_value in enumerate(self.input_values):
+            if input_value is old:
+                self.del_use(old)
+                self.input_values[idx] = new
+                self.add_use(new)
 
     def __str__(self):
         return f"asm ({self.template})"
